@@ -1,5 +1,219 @@
-import BioCantor.Model.Validate
-import BioCantor.Spec.Validate
+/-
+  C19 — invalid input is refused with documented errors; nothing ill-formed is built.
+
+  Property theorems only (helper lemmas live in BioCantor/Proofs/Val*.lean).  The constructors are the
+  `Except`-valued functions of Model/Validate.lean (control flow of the Python `__init__`s; tied to the real
+  constructors on every run by the exact-class correspondence of `./check C19`).  `outOf` projects a result to
+  what a caller observes: `ok v` / `refused` (a documented class) / `internal`.  Each `Spec.Validate.okMk…`
+  says: never internal; refused ⇒ the arguments are invalid; ok ⇒ the arguments are valid AND the object is
+  well formed.  Every theorem quantifies over ALL argument values (lists of any length, any integers).
+
+  Where the code that exists deviates from the property the full statement is kept in the comment, the
+  theorem is named `…_partial` with the exact extra hypothesis, and a `…_witness` theorem shows that the
+  modelled current code really deviates outside it (DESIGN §5: F-C19g/h/i and the new F-C19m/n/s).
+-/
+import BioCantor.Proofs.ValBasics
+import BioCantor.Proofs.ValCompound
+import BioCantor.Proofs.ValBridge
+import BioCantor.Proofs.ValParent
+import BioCantor.Proofs.ValCDS
+import BioCantor.Proofs.ValTx
+import BioCantor.Proofs.ValVar
+import BioCantor.Proofs.ValScan
+import BioCantor.Proofs.ValWindows
 namespace BioCantor.Props.C19
-theorem placeholder : True := trivial
+open BioCantor BioCantor.Model BioCantor.Model.Validate BioCantor.Proofs.Val
+open BioCantor.Spec.Validate (okMkSingle okMkCompound okMkParent okMkSeq okMkCDS okMkTx okMkVarColl okScanWin ascending
+  upperAscii validTx)
+
+/-! ### SingleInterval -/
+
+/-- T1 `SingleInterval(start, end, strand, parent)`: built exactly when `0 ≤ start ≤ end` (and `end` within the
+    parent's sequence); otherwise InvalidPositionException; the object stores the arguments. -/
+theorem single_spec (s e : Int) (st : Strand) (plen : Option Nat) :
+    okMkSingle s e st plen (outOf projSingle (mkSingleP s e st plen)) = true :=
+  mkSingleP_spec s e st plen
+
+/-! ### CompoundInterval -/
+
+/-- T2 (partial).  Full statement: `∀ starts ends st plen, okMkCompound starts ends st plen (out …) = true`
+    (refused ⇔ unequal/empty lists, a start > end, a negative start, or an end beyond the parent sequence; built ⇒
+    blocks are a sorted permutation of the given pairs, all valid).  FAILS for negative starts (F-C19g): the
+    constructor never compares a coordinate with 0.  Proved for non-negative starts. -/
+theorem compound_spec_partial (starts ends : List Int) (st : Strand) (plen : Option Nat)
+    (hnn : ∀ b ∈ starts.zip ends, 0 ≤ b.1) :
+    okMkCompound starts ends st plen (outOf id (mkCompoundRaw starts ends st plen)) = true :=
+  mkCompoundRaw_spec_partial starts ends st plen hnn
+
+example : ∀ b ∈ [0, 5, 5].zip [3, 5, 9], (0 : Int) ≤ b.1 := by decide
+
+/-- F-C19g witness: `CompoundInterval([-2,5],[3,7],+)` IS built, with the block `(-2, 3)`. -/
+theorem compound_negative_start_witness :
+    mkCompoundRaw [-2, 5] [3, 7] .plus none = .ok [(-2, 3), (5, 7)] ∧
+    okMkCompound [-2, 5] [3, 7] .plus none (.ok [(-2, 3), (5, 7)]) = false :=
+  ⟨mkCompoundRaw_negative_witness, by decide⟩
+
+/-- T2' for ALL inputs (negative coordinates included): the constructor accepts exactly the as-coded condition
+    (equal non-zero lengths, every start ≤ end, every end within the parent sequence), answers the stable sort of
+    the pairs, and otherwise raises a documented class — never an internal error. -/
+theorem compound_exact (starts ends : List Int) (st : Strand) (plen : Option Nat) :
+    (acceptedCompound starts ends plen → mkCompoundRaw starts ends st plen = .ok (sortBlocksI st (starts.zip ends))) ∧
+    (¬ acceptedCompound starts ends plen → ∃ k, mkCompoundRaw starts ends st plen = .error (.doc k)) :=
+  mkCompoundRaw_eq starts ends st plen
+
+/-- on natural-number coordinates the raw constructor is `Model.mkCompoundLoc`, the constructor the C01 / C02 / C04
+    theorems are stated about (same blocks when it accepts, a documented refusal when it refuses). -/
+theorem compound_is_mkCompoundLoc (bs : List Blk) (st : Strand) :
+    (∀ l, mkCompoundLoc bs st = .ok l →
+        mkCompoundRaw (bs.map fun b => (b.1 : Int)) (bs.map fun b => (b.2 : Int)) st none = .ok (l.blocks.map castBlk)) ∧
+    (∀ e, mkCompoundLoc bs st = .error e →
+        ∃ k, mkCompoundRaw (bs.map fun b => (b.1 : Int)) (bs.map fun b => (b.2 : Int)) st none = .error (.doc k)) :=
+  mkCompoundRaw_agrees_nat bs st
+
+/-! ### Parent -/
+
+/-- T3 `Parent(id, sequence_type, strand, location, sequence, parent)`: refused exactly when the ids / types disagree,
+    the strand contradicts the location, the location ends beyond the sequence, the sequence is longer than the
+    parent's sequence, or `sequence.parent` differs from `parent`; otherwise built with the unique id / type.
+    (`location=EmptyLocation()`: either answer is accepted, the documentation is silent.) -/
+theorem parent_spec (a : ParentArgs) :
+    okMkParent (specArgs a) (outOf specOut (mkParent a)) = true :=
+  mkParent_spec a
+
+/-! ### Sequence -/
+
+/-- the validation idiom `sequence.upper().strip(alphabet.value) != ""` is membership of every letter -/
+theorem alphabet_strip_is_membership (alph data : List Char) :
+    alphabetOk alph data = data.all (fun c => alph.contains (upperAscii c)) :=
+  alphabetOk_eq alph data
+
+/-- T4 (partial).  Full statement: `∀ alph data ploc, okMkSeq alph data ploc (out …) = true` (refused ⇔ a letter
+    outside the alphabet or a length different from the parent location's).  FAILS when the parent location has
+    length 0 (F-C19s: a zero-length location is falsy, the comparison is skipped).  Proved otherwise. -/
+theorem sequence_spec_partial (alph data : List Char) (ploc : Option (Option Nat))
+    (h0 : ploc = some (some 0) → data = []) :
+    okMkSeq alph data ploc (outOf id (mkSeq alph data ploc)) = true :=
+  mkSeq_spec_partial alph data ploc h0
+
+example : (some (some 4) : Option (Option Nat)) = some (some 0) → ['A', 'C', 'G', 'T'] = ([] : List Char) := by
+  intro h; cases h
+
+/-- F-C19s witness -/
+theorem sequence_zero_length_location_witness :
+    mkSeq ['A', 'C', 'G', 'T'] ['A', 'C', 'G', 'T'] (some (some 0)) = .ok 4 ∧
+    okMkSeq ['A', 'C', 'G', 'T'] ['A', 'C', 'G', 'T'] (some (some 0)) (.ok 4) = false :=
+  ⟨mkSeq_zero_length_location_witness, by decide⟩
+
+/-! ### CDSInterval -/
+
+/-- T5 (partial).  Full statement: `∀ starts ends st fps, okMkCDS starts ends (fps.map fpv) (out …) = true` (refused
+    ⇔ unequal / empty lists, a bad block, a wrong number of frames, an empty CDS, frames mixed with phases; built ⇒
+    start = smallest start, end = largest end, phases converted).  FAILS for negative starts in ≥ 2 blocks
+    (F-C19g) and for lists not in ascending order (F-C19i: start/end are the first start / last end as given).
+    Proved for non-negative starts in ascending order. -/
+theorem cds_spec_partial (starts ends : List Int) (st : Strand) (fps : List FP)
+    (hnn : ∀ b ∈ starts.zip ends, 0 ≤ b.1) (hasc : ascending (starts.zip ends) = true) :
+    okMkCDS starts ends (fps.map fpv) (outOf projCDS (mkCDS starts ends st fps)) = true :=
+  mkCDS_spec_partial starts ends st fps hnn hasc
+
+example : (∀ b ∈ [0, 12].zip [9, 21], (0 : Int) ≤ b.1) ∧ ascending ([0, 12].zip [9, 21]) = true := by decide
+
+/-- for ALL inputs: a CDS constructor call ends in an object or in a documented class -/
+theorem cds_never_internal (starts ends : List Int) (st : Strand) (fps : List FP) :
+    NoInternal (mkCDS starts ends st fps) :=
+  mkCDS_noInternal starts ends st fps
+
+/-! ### TranscriptInterval -/
+
+/-- T6 (partial).  Full statement: `∀ exS exE st cdsS cdsE cdsF, okMkTx exS exE cdsS cdsE (specF cdsF) (out …) = true`
+    (refused ⇔ invalid exon lists, only one of cds_starts/cds_ends, an invalid CDS, or a CDS block not covered by the
+    exons; built ⇒ start/end are the smallest start / largest end of the exons and of the CDS).  FAILS outside the
+    hypotheses: negative starts (F-C19g), lists not ascending (F-C19i), a CDS inside the exon span but partly in an
+    intron (F-C19h: only the outer bounds are compared), empty CDS lists (F-C19m: IndexError). -/
+theorem transcript_spec_partial (exS exE : List Int) (st : Strand) (cdsS cdsE : Option (List Int))
+    (cdsF : Option (List CDSFrame))
+    (hnn : ∀ b ∈ exS.zip exE, 0 ≤ b.1) (hasc : ascending (exS.zip exE) = true)
+    (H : CdsHyp exS exE cdsS cdsE) :
+    okMkTx exS exE cdsS cdsE (specF cdsF) (outOf projTx (mkTx exS exE st cdsS cdsE cdsF)) = true :=
+  mkTx_spec_partial exS exE st cdsS cdsE cdsF hnn hasc H
+
+/-- the hypotheses are satisfiable by a two-exon coding transcript (exons [5,10) [15,20), CDS [7,10) [15,18)) -/
+example : (∀ b ∈ [5, 15].zip [10, 20], (0 : Int) ≤ b.1) ∧ ascending ([5, 15].zip [10, 20]) = true ∧
+    CdsHyp [5, 15] [10, 20] (some [7, 15]) (some [10, 18]) := by
+  refine ⟨by decide, by decide, ⟨by decide, ?_, ?_, ?_⟩⟩
+  · intro cs ce h1 h2; cases h1; cases h2; decide
+  · intro cs ce h1 h2; cases h1; cases h2; decide
+  · intro cs ce c0 cN x0 xN h1 h2 _ _ _ _ _ _; cases h1; cases h2; decide
+
+/-- T6' for ALL inputs: the constructor ends in an internal error EXACTLY when the exon lists are accepted and both
+    CDS lists are empty (F-C19m, `cds_starts[0]`); in every other case it returns an object or a documented class. -/
+theorem transcript_internal_iff (exS exE : List Int) (st : Strand) (cdsS cdsE : Option (List Int))
+    (cdsF : Option (List CDSFrame)) :
+    (∃ c, mkTx exS exE st cdsS cdsE cdsF = .error (.internal c)) ↔
+      (acceptedInit exS exE ∧ cdsS = some [] ∧ cdsE = some []) :=
+  mkTx_internal_iff exS exE st cdsS cdsE cdsF
+
+/-- F-C19h witness: exons [5,10) [15,20), CDS [7,13) is accepted although the CDS is not covered by the exons. -/
+theorem transcript_cds_in_intron_witness :
+    (mkTx [5, 15] [10, 20] .plus (some [7]) (some [13]) (some [.ZERO])).toOption.map projTx
+      = some (5, 20, true, 7, 13) ∧
+    validTx [5, 15] [10, 20] (some [7]) (some [13]) (some [0]) = false :=
+  mkTx_cds_in_intron_witness
+
+/-- F-C19i witness: `TranscriptInterval([15,5],[20,10],+)` is built with start = 15 > end = 10. -/
+theorem transcript_unsorted_witness :
+    (mkTx [15, 5] [20, 10] .plus none none none).toOption.map projTx = some (15, 10, false, 0, 0) :=
+  mkTx_unsorted_witness
+
+/-! ### VariantIntervalCollection -/
+
+/-- T7 (partial).  Full statement: `∀ raw, okMkVarColl raw (out …) = true` (refused ⇔ empty list, a variant window
+    that is empty / reversed / negative, or two overlapping variants; built ⇒ bounds = smallest start, largest end).
+    FAILS for the empty list (F-C19n: `min()` of an empty sequence, a builtin ValueError).  Proved for non-empty lists:
+    in particular the check of ADJACENT pairs of the start-sorted list finds every overlapping pair. -/
+theorem variant_collection_spec_partial (raw : List (Int × Int)) (hne : raw ≠ []) :
+    okMkVarColl raw (outOf projVar (mkVarColl raw)) = true :=
+  mkVarColl_spec_partial raw hne
+
+example : ([(3, 4), (1, 2)] : List (Int × Int)) ≠ [] := by decide
+
+/-- T7' for ALL lists: internal error exactly for the empty list -/
+theorem variant_collection_internal_iff (raw : List (Int × Int)) :
+    (∃ c, mkVarColl raw = .error (.internal c)) ↔ raw = [] :=
+  mkVarColl_internal_iff raw
+
+/-! ### Location.scan_windows -/
+
+/-- T8 `scan_windows(window_size, step_size, start_pos)` on ANY location: refused (ValueError /
+    InvalidStrandException) exactly when the location is undirected or the arguments leave `0 ≤ start_pos < len`,
+    `window, step ≥ 1`, `start_pos + window ≤ len`; otherwise `k ≥ 1` windows where window `k-1` still fits and window
+    `k` does not (window = length gives exactly one). -/
+theorem scan_windows_spec (l : Location) (w step sp : Int) :
+    okScanWin (dirOf l) (locLen l) w step sp (outOf id (scanWinCount l w step sp)) = true :=
+  scanWinCount_spec l w step sp
+
+/-- T8' every window produced on a well-formed location is well formed (corollary of C01-T3 `relint_spec`) -/
+theorem scan_windows_wf (l : Location) (h : Proofs.WF l) (w step sp : Int) (ws : List Location)
+    (hws : scanWindows l w step sp = .ok ws) : ∀ m ∈ ws, Spec.wfLocation m = true :=
+  scanWindows_wf l h w step sp ws hws
+
+example : Proofs.WF (.compound ⟨[(0, 3), (5, 8)], .minus⟩) := by decide
+
+/-! ### never an internal error, for ALL arguments -/
+
+/-- T9 the modelled constructors other than TranscriptInterval / VariantIntervalCollection (characterised exactly
+    above) end in an object or a documented class for every argument value. -/
+theorem never_internal :
+    (∀ s e st plen, NoInternal (mkSingleP s e st plen)) ∧
+    (∀ starts ends st plen, NoInternal (mkCompoundRaw starts ends st plen)) ∧
+    (∀ a, NoInternal (mkParent a)) ∧
+    (∀ alph data ploc, NoInternal (mkSeq alph data ploc)) ∧
+    (∀ starts ends st fps, NoInternal (mkCDS starts ends st fps)) ∧
+    (∀ l w step sp, NoInternal (scanWinCount l w step sp)) := by
+  refine ⟨?_, mkCompoundRaw_noInternal, mkParent_noInternal, mkSeq_noInternal, mkCDS_noInternal, scanWinCount_noInternal⟩
+  intro s e st plen c h
+  have := mkSingleP_spec s e st plen
+  rw [h] at this
+  simp [outOf, okMkSingle] at this
+
 end BioCantor.Props.C19
